@@ -54,9 +54,9 @@ def run(ctx, res):
             c = v.fields["0"]
             res.ob(solver.entails(s.pc, f_and(flit(ge(LEN, 1)), flit(eq(vr["final"], LEN)))), "tiling", d,
                    "accepted => non-empty and the chain of length fields ends exactly at len", pc=s.pc)
-            good = isinstance(c, StructV) and same_view(s.pc, c.fields.get("data"), inp) and \
-                isinstance(c.fields.get("offset"), IntV) and c.fields["offset"].l == lin(0) and \
-                isinstance(c.fields.get("is_over"), BoolV) and c.fields["is_over"].f == ("false",)
+            c_off, c_over = field_of(c, IntV, "offset"), field_of(c, BoolV, "is_over")
+            good = isinstance(c, StructV) and same_view(s.pc, field_of(c, SliceV, "data"), inp) and \
+                isinstance(c_off, IntV) and c_off.l == lin(0) and isinstance(c_over, BoolV) and c_over.f == ("false",)
             res.ob(good, "tiling", d, "the iterator starts at offset 0, not finished, over the unchanged input", detail=repr(c)[:200])
             cv, cs = c, s
         else:
@@ -84,12 +84,14 @@ def run(ctx, res):
         pre_off = None
         for p, (a, init) in []:
             pass
-        off_sym = [a for a in _state_syms(rep) if a[1].startswith("offset@")][0]
-        over_key = [k for k in _bool_keys(rep) if k.startswith("is_over@")][0]
+        # the iterator's state: one integer (the offset) and one flag (finished), whatever they are called
+        ss_, bk_ = _state_syms(rep), _bool_keys(rep)
+        off_sym = ([a for a in ss_ if a[1].startswith("offset@")] or ss_)[0]
+        over_key = ([k for k in bk_ if k.startswith("is_over@")] or bk_)[0]
         OFF = Lin.atom(off_sym)
         over_pre = flit(("b", over_key, True))
-        new_off = ints["offset"]
-        new_over = bools["is_over"]
+        new_off = ints["offset"] if "offset" in ints else list(ints.values())[0]
+        new_over = bools["is_over"] if "is_over" in bools else list(bools.values())[0]
         t = SliceV(inp.base, inp.start + OFF, inp.end)
         L = Header(t).length_field_bytes()
         if solver.entails(s2.pc, over_pre):
